@@ -3,14 +3,16 @@ from ..runner import Spec, Case
 from .. import core
 
 NC = 64
+WRONG = ['!I', '!S', '!F', '!T', '!N']     # an Int, a String, a Float, a Type object, NULL where a probe element / key / value is expected
 
 
 class Sim:
     """payload-level bookkeeping of the generator (lengths, keys): only used to stay inside the contract and to aim
     operations at existing elements/keys; it is not an oracle."""
-    def __init__(self, rng, paymax=40, keypool=None):
+    def __init__(self, rng, paymax=40, keypool=None, wrong=0.0):
         self.rng = rng; self.k = {}; self.seq = {}; self.map = {}; self.lines = []
         self.paymax = paymax
+        self.wrong = wrong                      # rate of calls with a wrong-typed element / key / value
         # keys: several per hash value (probe hash = pay % 16 * 37) so that Table clusters form
         self.keypool = keypool or [h + 16 * j for h in (0, 1, 2, 3, 5, 15) for j in range(6)]
     def free(self):
@@ -56,6 +58,67 @@ class Sim:
         c = self.free()
         if c is None: return
         self.k[c] = 'X'; self.emit(f'box {c} {self.pay()}')
+    # ---- calls with a wrong-typed argument: all refused, nothing changes (the non-atomic territory is avoided: Array push /
+    #      push_at at an accepted index / concat / constructor with a wrong-typed element — KF-C12-array-push-type,
+    #      own-array-new-partial — and List concat with well-typed items before the wrong one)
+    def w(self): return self.rng.choice(WRONG)
+    def typed_seq_op(self, c):
+        r = self.rng; k = self.k[c]; xs = self.seq[c]; n = len(xs)
+        if k in 'BC': return False              # Box_Assign takes any object
+        ops = ['set', 'set', 'rem', 'pushat_bad', 'concatv_good']
+        if k == 'L': ops += ['push', 'push', 'append', 'pushat', 'pushat', 'concatv_wrong']
+        op = r.choice(ops)
+        if op in ('push', 'append'): self.emit(f'{op} {c} {self.w()}')
+        elif op == 'pushat':                    # List: 0 = head, the position of an existing element, or refused by the index first
+            i = 0 if (n == 0 or r.random() < 0.3) else self.idx(n, r.random() < 0.2)
+            self.emit(f'pushat {c} {i} {self.w()}')
+        elif op == 'pushat_bad':                # Array and List alike: the index check comes first
+            i = r.choice([n + 2, n + 5, -n - 3, -n - 8])
+            self.emit(f'pushat {c} {i} {self.w()}')
+        elif op == 'set': self.emit(f'set {c} {self.idx(n, r.random() < 0.2)} {self.w()}')
+        elif op == 'rem': self.emit(f'rem {c} {self.w()}')
+        elif op == 'concatv_wrong':             # the wrong-typed item first: nothing is pushed
+            tail = [str(self.pay()) if r.random() < 0.7 else self.w() for _ in range(r.randrange(0, 4))]
+            self.emit(' '.join([f'concatv {c}', self.w()] + tail))
+        else:                                   # a Tuple of well-typed elements as the source of concat
+            ps = [self.pay() for _ in range(r.randrange(0, 5))]
+            xs += ps; self.emit(' '.join([f'concatv {c}'] + [str(p) for p in ps]))
+        return True
+    def typed_map_op(self, c):
+        r = self.rng; m = self.map[c]
+        op = r.choice(['key', 'val_old', 'val_new', 'val_new', 'both', 'mrem'])
+        if op == 'mrem': self.emit(f'mrem {c} {self.w()}'); return True
+        if op == 'key': k, v = self.w(), self.pay()
+        elif op == 'both': k, v = self.w(), self.w()
+        elif op == 'val_old' and m: k, v = r.choice(list(m)), self.w()
+        else:
+            fresh = [x for x in self.keypool if x not in m]
+            k, v = (r.choice(fresh) if fresh else self.key()), self.w()
+        self.emit(f'mset {c} {k} {v}')
+        return True
+    def typed_ctor(self, kinds):
+        """a constructor with a wrong-typed initial element / key / value: refused, the name stays free"""
+        c = self.free()
+        ks = [k for k in kinds if k in 'LTR']   # not Array: own-array-new-partial
+        if c is None or not ks: return False
+        kind = self.rng.choice(ks); r = self.rng
+        if kind == 'L':
+            n = r.randrange(1, 7); j = r.randrange(n)
+            args = [self.w() if (q == j or (q > j and r.random() < 0.3)) else str(self.pay()) for q in range(n)]
+        else:
+            n = r.randrange(1, 6); j = r.randrange(n); args = []
+            for q in range(n):
+                k = r.choice([a for a in args[::2] if not a.startswith('!')] or [str(self.key())]) if (q < j and r.random() < 0.25) else str(self.key())
+                v = str(self.pay())
+                if q == j:
+                    which = r.random()
+                    if which < 0.4: k = self.w()
+                    elif which < 0.8: v = self.w()
+                    else: k, v = self.w(), self.w()
+                elif q > j and r.random() < 0.3: v = self.w()
+                args += [k, v]
+        self.emit(' '.join([f'newv {c} {self.kt(kind)}' if kind == 'L' else f'newm {c} {self.kt(kind)}'] + args))
+        return True
     # ---- sequences
     def idx(self, n, fail):
         """an index for a sequence of length n: valid (both signs) or, when `fail`, out of range"""
@@ -178,8 +241,8 @@ class Sim:
         self.emit(f'del {c}')
 
 
-def history(rng, nops, weights, paymax=40, keypool=None, maxlen=40, big=False, fail=0.08):
-    s = Sim(rng, paymax, keypool)
+def history(rng, nops, weights, paymax=40, keypool=None, maxlen=40, big=False, fail=0.08, wrong=0.04):
+    s = Sim(rng, paymax, keypool, wrong)
     kinds = [k for k, w in weights.items() for _ in range(w)]
     for _ in range(rng.randrange(2, 6)): s.new(rng.choice(kinds))
     while len(s.lines) < nops:
@@ -192,12 +255,14 @@ def history(rng, nops, weights, paymax=40, keypool=None, maxlen=40, big=False, f
             elif 'B' in kinds: s.box()
             else: s.new(rng.choice(kinds))
         elif r < 0.10: s.pair_op()
+        elif r < 0.10 + wrong / 4 and s.typed_ctor(kinds): pass
         elif r < 0.115: s.emit(f'read {rng.choice(list(s.k))}')
         elif r < 0.14 and len(s.k) > 3: s.delete()
         else:
             c = rng.choice(list(s.k))
             k = s.k[c]
             if k == 'X': continue
+            if rng.random() < wrong and (s.typed_seq_op(c) if k in 'ALBC' else s.typed_map_op(c)): continue
             if k in 'ALBC':
                 if len(s.seq[c]) > maxlen and not big:
                     s.seq[c] = s.seq[c][:maxlen // 2]; s.emit(f'resize {c} {maxlen // 2}')
@@ -250,14 +315,21 @@ class C05(Spec):
                   'predecessor memcpy neither drop nor duplicate), over every history. '
                   'Theorems C05_conservation_{array,list,map,partial}, C05_history_partial, C05_live_count_partial, '
                   'C05_never_while_contained_partial, C05_deep_{partial,assign_partial,independent,no_foreign_finalise}, '
-                  'C05_refused_no_effect_partial: in the ownership model of the container code, every operation conserves element identities '
+                  'C05_refused_no_effect_{partial,type}, C05_conservation_type_refused: in the ownership model of the container code, every operation conserves element identities '
                   '(contents after + finalised = contents before + constructed), constructed identities are fresh, so over every history of '
                   'in-contract operations each element is finalised at most once, never while contained, the live elements are exactly the '
-                  'union of the container contents (live count = sum of sizes), a refused call constructs and finalises nothing, and after '
+                  'union of the container contents (live count = sum of sizes), a refused call constructs and finalises nothing — in particular a call '
+                  'with an element / key / value of the wrong type (Int, String, Float, a Type object, NULL) on List / Table / Tree, and set / rem / an '
+                  'out-of-range push_at on Array, is always refused, issues and retires nothing and leaves every container unchanged; a refused List / '
+                  'Table / Tree constructor finalises exactly what it had constructed — and after '
                   'deleting every container every element ever constructed has been finalised exactly once; copy/assign construct one fresh '
                   'element per source element and operations on one side leave the other unchanged. C05_source_profile ties the model to the '
-                  'source text (which function calls destruct/assign/memcpy in which order), regenerated every run. The model is validated '
-                  'against the real containers per operation on generated histories; the full statements are refuted for the two known findings.')
+                  'source text (which function calls destruct/assign/memcpy/cast in which order), regenerated every run; C05_type_check_first_{table_set_move,tree_set,table_rem,tree_rem} '
+                  'state per function that every key / value argument is cast before the first allocation / assign / destruct / byte move / nitems update and nowhere later, '
+                  'C05_type_check_late_array_list records where Array.c / List.c make room before the element\'s own type check, C05_no_unmodelled_helpers that no '
+                  'allocation or assignment has moved into a helper the profile does not see. The model is validated '
+                  'against the real containers per operation on generated histories; the full statements are refuted for the known findings '
+                  '(C05_refused_no_effect_type_refuted, C05_array_new_partial_refuted, C05_type_refused_not_atomic_witnesses list the type-refused calls that are not atomic).')
     level_note = ('Trusted: Lean kernel; harness/driver comparison (testing) for the step correspondence; the probe element type stands for '
                   '"an element type with its own constructor, assignment and destructor that owns heap memory". Known findings excluded from '
                   'the contract: Box_Assign is shallow (F28), List_Resize growing a list links unconstructed elements. '
@@ -270,14 +342,20 @@ class C05(Spec):
             '(two probe element types of different size — 24 and 48 bytes, the larger with guard words around its owned pointer — in every key/value/element position); (c) map-heavy with 36 keys sharing 6 hash values (clusters, displacement, replace of existing keys, rem with backward shift, '
             'explicit resize, rehash up and down, assign Table<->Tree), (d) growth to n elements then copy and shrink, (e) Box containers, '
             '(e\') List of Box, push_at of a Box at accepted and refused positions, assignment of an empty Table/Tree to a sequence, self-assignment of every kind, '
-            '(f) error-heavy (25% failing calls: empty pop, bad index, absent key/element, refused resize), read-only probes (len/iteration/get/mem/hash/eq '
+            '(f) error-heavy (25% failing calls: empty pop, bad index, absent key/element, refused resize), '
+            '(g, run first) type-refused: a third of the calls carry an Int / String / Float / Type object / NULL where a probe element, key or value is expected — '
+            'push, append, push_at (accepted and refused index), set, rem, concat from a Tuple on List; set, rem, refused-index push_at on Array; set with wrong key, wrong value '
+            '(existing key, new key), both, and rem with wrong key on Table and Tree (also on an emptied Table); constructors of List / Table / Tree with the wrong-typed argument '
+            'at every position, with repeated keys before it (run as construct_with(alloc(T), args), the half-built object deleted at once); the same at 4% in every other family; '
+            'read-only probes (len/iteration/get/mem/hash/eq '
             'must cause no ownership event), plus constructors with initial '
             'elements, copies, self-assignment, deletions in any order; every op file ends with the deletion of all remaining containers. '
             'non-trivial item = one executed operation whose observation shows an ownership event (element constructed, finalised or '
             'assigned in place) or a raised exception; distinct = distinct (operation text, observation) pairs.')
     trusted_base = ('harness/h_own.c + lean/Driver/Own.lean (step correspondence is testing)',
                     'Cello/Table.lean and Cello/RBTree.lean mirror src/Table.c and src/Tree.c slot by slot / node by node: validated by the C02 / C03 engines (h_table, h_tree), imported here',
-                    'translate/g_own.py (regex over the container sources: which functions call destruct/assign/memcpy)',
+                    'translate/g_own.py (regex over the container sources: which functions call destruct/assign/memcpy/cast, where the casts stand relative to the first effect)',
+                    'a refused constructor: the harness deletes the half-built object at once; that the collector does the same at its next sweep is C06\'s subject',
                     'the probe element type of the harness stands for every element type with New/Assign/Del owning heap memory',
                     'in the world of several containers a Table / Tree is its key-sorted association list; C05_moves_* prove that this is what the slot array / red-black tree holds after every operation')
     assumptions = ('single thread, collector running, containers deleted explicitly with del (collector-driven finalisation is C06)',
@@ -287,7 +365,9 @@ class C05(Spec):
                    'assign(Table or Tree, Array or List) is not modelled (the map takes Int as key type and refuses probe keys afterwards; the model does not track element types), concat(x, x) diverges (KF-C04-self-concat): both are answered bad-op by harness and model and a history containing one is outside the contract (inContract requires that the operation was executed)',
                    'arguments are fresh objects, never elements of the container they are passed to (push(a, get(a, i)): Array_Push reads the argument after realloc — C04\'s subject)',
                    'invariants are stated after every operation; nothing is claimed about the states inside one operation',
-                   'element and argument types agree (type errors are C12), payloads < 2^31, fewer than 2^63 elements')
+                   'wrong-typed arguments (Int, String, Float, Type object, NULL) are generated for every call that is atomic on a type error; NOT generated: Array push / push_at at an accepted index / concat with a wrong-typed element (the array grows before the element\'s own type check: KF-C12-array-push-type, recorded under C12 — the model mirrors it, the harness prints that signature if a replay enters it), new(Array, T, ...) with a wrong-typed element (known finding own-array-new-partial), concat(list, ...) with well-typed items before the wrong one (they stay: KF-C12-list-concat-partial; ownership stays consistent, one corpus line); containers of Box take any object (typed calls are bad-op there)',
+                   'a type-refused List_Push / List_Push_At / List_Concat / List_New loses the unlinked node (raw calloc memory, never an element): not an ownership event, not observed here',
+                   'payloads < 2^31, fewer than 2^63 elements')
 
     def cases(self, rng, tier, boost=1):
         quick = tier == 'quick'
@@ -296,6 +376,11 @@ class C05(Spec):
         nh = (12 if quick else 150) * boost
         nops = 300 if quick else 2500
         allk = {'A': 3, 'L': 3, 'T': 3, 'R': 3, 'B': 1, 'C': 1}
+        # first (a failing input on an error path ends the run early): histories in which a third of the calls carry a
+        # wrong-typed element / key / value, on small containers (existing and new keys, every position of a constructor)
+        for i in range(max(nh // 2, 3)):
+            add(f'refused{i}', history(rng, nops // 2, {'L': 3, 'T': 3, 'R': 3, 'A': 2}, wrong=0.35, maxlen=10,
+                                       keypool=list(range(1, 13)) if i % 2 else None))
         for i in range(nh): add(f'mixed{i}', history(rng, nops, allk))
         for i in range(nh): add(f'seq{i}', history(rng, nops, {'A': 3, 'L': 3}, paymax=12))
         for i in range(nh): add(f'map{i}', history(rng, nops, {'T': 3, 'R': 2}, maxlen=30))
@@ -334,6 +419,10 @@ class C05(Spec):
             if ' ret=[]' not in o: acc['ops_finalising'] = acc.get('ops_finalising', 0) + 1
             if ' upd=[]' not in o: acc['ops_assigning_in_place'] = acc.get('ops_assigning_in_place', 0) + 1
             if name == 'mset' and ' ret=[]' not in o: acc['table_replace'] = acc.get('table_replace', 0) + 1
+            if '!' in op:
+                acc['wrong_typed_calls'] = acc.get('wrong_typed_calls', 0) + 1
+                acc['wrong_typed_' + name] = acc.get('wrong_typed_' + name, 0) + 1
+                if r == 'ok': acc['wrong_typed_ACCEPTED'] = acc.get('wrong_typed_ACCEPTED', 0) + 1
             try:
                 lv = int(o.split(' live=')[1].split()[0]); acc['max_live'] = max(acc.get('max_live', 0), lv)
             except Exception: pass
